@@ -31,6 +31,21 @@ func main() {
 		devC30()
 	case "c36templates":
 		devC36Templates()
+	case "c35zoo":
+		var seed uint64
+		fmt.Sscanf(os.Args[2], "%d", &seed)
+		if len(os.Args) > 3 {
+			z := genCompileZoo(seed)
+			for _, c := range z.Contracts {
+				fmt.Printf("--- %s at 0x%x\n%s", c.Name, c.Addr, c.Src)
+			}
+			fmt.Println("--- tx\n" + z.Tx)
+		}
+		r := compileZoo(seed, 4)
+		fmt.Printf("programs=%d instructions=%d digest=%s\n", r.Programs, r.Instr, r.Digest)
+		for _, v := range r.Violations {
+			fmt.Println("VIOL", clip(v.String(), 4000))
+		}
 	case "c44gen":
 		devC44Gen(os.Args[2:])
 	case "c44zoo":
